@@ -14,6 +14,10 @@ import PqlModel.Props.C07OperatorIRExtend
 import PqlModel.Props.C07OperatorIRProject
 import PqlModel.Props.C07OperatorIRLet
 import PqlModel.Props.C07OperatorIRTabular
+import PqlModel.Props.C07OperatorIRSummarize
+import PqlModel.Props.C07OperatorIRRender
+import PqlModel.Props.C07OperatorIRJoin
+import PqlModel.Props.C07OperatorIRParse
 #print axioms Pql.C10.C10_union_lists_every_field
 #print axioms Pql.C10.C10_model_matches_span_table
 #print axioms Pql.C10.C10_unions_contains
